@@ -146,3 +146,20 @@ func gsxVisit(name string) {
 		c.Check(f)
 	}
 }
+
+// gsxWalk drives the checker's whole file walker (EnterFile/EnterFunc and the
+// traversal itself) over a small lazily initialised file.
+func gsxWalk(name string) {
+	c, ctx := gsxNewChecker(name)
+	fw := gsxrt.Field(c, "fileWalker")
+	if v := gsxrt.Field(fw, "visitor"); v != nil {
+		gsxrt.FocusOn(v)
+	} else {
+		gsxrt.FocusOn(fw)
+	}
+	var f *ast.File
+	gsxrt.Lazy("file", gsxrt.Bound("K", 2), &f)
+	ctx.Filename = "cand.go"
+	gsxrt.Reached("visit")
+	c.Check(f)
+}
